@@ -1,0 +1,25 @@
+//go:build verif
+
+// Ghost driver for /verif/govc (see /verif/DESIGN.md, "history lemmas"): an arbitrary history of authorization requests that
+// name a pushed authorization request, written as a loop, so that the induction over histories becomes a loop invariant
+// proved from the contract of the real function. Compiled only with the build tag verif; never called.
+package fosite
+
+import (
+	"context"
+	"net/http"
+)
+
+// verifEnv decides how long the history is and supplies the HTTP requests (any request_uri, any client_id).
+type verifEnv interface {
+	More() bool
+	HTTPRequest() *http.Request
+	AuthorizeRequest() *AuthorizeRequest
+}
+
+// verifHistoryPARUse: any sequence of authorization requests that may or may not name a pushed authorization request.
+func verifHistoryPARUse(ctx context.Context, env verifEnv, f *Fosite, uri0 string) {
+	for env.More() {
+		_, _ = f.authorizeRequestFromPAR(ctx, env.HTTPRequest(), env.AuthorizeRequest())
+	}
+}
